@@ -37,31 +37,48 @@ def run(ctx):
     for i in range(ngraphs):
         ip = rng.choice([RDF_TYPE, RDF_TYPE, EX + 'inst'])
         g = gen.gen_graph(rng, inst_prop=ip) if rng.random() < 0.7 else gen.gen_schema_graph(rng, inst_prop=ip)
+        directed = False
         if i % 5 == 4:
             # a property with several values per instance, the number of values varying between instances (two or three exact cardinalities
             # with different frequencies), the values partly in classes, partly blank nodes, partly untyped: thresholds between the
             # frequencies of the cardinalities must not make a key come and go
             ip = RDF_TYPE
             g = []
-            n_inst = rng.randint(4, 6)
-            others = [I('t%d' % k) for k in range(3)]
-            for o in others[:2]:
-                g.append((o, RDF_TYPE, I('T')))
-            for j in range(n_inst):
-                g.append((I('m%d' % j), RDF_TYPE, I('M')))
-                for v in range(rng.choice([1, 1, 2, 2, 3])):
-                    g.append((I('m%d' % j), EX + 'p', rng.choice(others + [I('u%d' % v), B('ub%d' % v)])))
-                for v in range(rng.choice([1, 2])):
-                    g.append((I('m%d' % j), EX + 'q', rng.choice([I('u%d' % v), B('ub%d' % v)])))
+            nT = rng.randint(7, 10)
+            a2, a1s = rng.randint(2, 4), rng.randint(1, 3)          # two values (one typed S, one not) / one value in S / the rest one value outside S
+            for j in range(nT):
+                g.append((I('t%d' % j), RDF_TYPE, I('T')))
+            for j in range(a2 + a1s):
+                g.append((I('s%d' % j), RDF_TYPE, I('S')))
+            for j in range(nT):
+                if j < a2:
+                    g += [(I('t%d' % j), EX + 'p', I('s%d' % j)), (I('t%d' % j), EX + 'p', I('other%d' % j))]
+                elif j < a2 + a1s:
+                    g.append((I('t%d' % j), EX + 'p', I('s%d' % j)))
+                else:
+                    g.append((I('t%d' % j), EX + 'p', I('other%d' % j)))
+            nU = rng.randint(7, 10)
+            b2, i1 = rng.randint(2, 4), rng.randint(2, 4)
+            for j in range(nU):
+                g.append((I('u%d' % j), RDF_TYPE, I('U')))
+                if j < b2:
+                    g += [(I('u%d' % j), EX + 'q', B('b%da' % j)), (I('u%d' % j), EX + 'q', B('b%db' % j))]
+                elif j < b2 + i1:
+                    g.append((I('u%d' % j), EX + 'q', I('thing%d' % j)))
+                else:
+                    g += [(I('u%d' % j), EX + 'q', I('thing%da' % j)), (I('u%d' % j), EX + 'q', I('thing%db' % j))]
             g = list(dict.fromkeys(g))
             rng.shuffle(g)
+            directed = True
         cfg0 = gen.gen_cfg(rng, g, inst_prop=ip, presentation=False, allow_cap=False, allow_or=True)
         cfg0['report'] = 'mixed'
         cfg0['disable_comments'] = False
         cfg0['disable_exact'] = False
         ths = gen.threshold_grid(g, ip)
-        if len(ths) > 6:
+        if len(ths) > 6 and not directed:
             ths = list(set(rng.sample(ths, 4)) | {(0, 1), (1, 1)})
+        if directed:
+            cfg0['target_mode'], cfg0['targets'], cfg0['remove_empty'] = 'all', None, False
         ths = sorted(set(ths), key=lambda t: Fraction(*t))
         ths = [t for k, t in enumerate(ths) if k == 0 or Fraction(*t) != Fraction(*ths[k - 1])]
         idx = []
